@@ -201,7 +201,7 @@ PLANS["C11"] = dict(
     targets=[CHANNEL + "Channel.close", "rpyc/lib/colls.py::WeakValueDict.clear", STREAM + "SocketStream.close",
              COLLS + "clear"] +
             [PROTO + n for n in ("_cleanup", "close", "_handle_close", "__exit__", "__del__", "serve", "serve_all",
-                                 "_async_request", "_send")],
+                                 "_async_request", "_send", "root")],
     lemmas=["frames_app", "all_fit_app"], compositions=[], native_focus=[], design_ref="DESIGN.md section 4, C11",
     assumptions=COMMON_ASSUMPTIONS + [
         "single thread (A-SEQ): locks and the receive condition are modelled sequentially",
